@@ -139,7 +139,7 @@ def run(tier, replay_file=None):
     quick = tier == "quick"
     rng = random.Random(common.seed())
     # 1. the incremental collector algorithm equals the declarative aggregates for every population / order
-    mc = tlc.run("Abm", dict(consts(3 if quick else 4, 0, 0, '{"Create","Delete","SetState","SetVal"}'), L='99'),
+    mc = tlc.run("Abm", dict(consts(3 if quick else 4, 0, 0, '{"Create","Delete","SetState","SetVal"}'), L='0'),
                  invariants=INVS, view="View", spec="Spec", timeout=3000)
     if mc.violation:
         R.violation("spec:" + mc.violation, {"trace": mc.trace[:3000]})
